@@ -262,7 +262,7 @@ func run(c *harness.Ctx, i int) {
 	}
 	leg := []string{"next", "next", "file", "file", "file", "stream", "stream"}[rng.Intn(7)]
 	big := c.Tier == "thorough" && i%2000 == 1
-	if i%1500 == 7 {
+	if i%400 == 7 {
 		leg = "cli"
 	}
 	n := 1 + rng.Intn(16)
@@ -285,6 +285,33 @@ func run(c *harness.Ctx, i int) {
 		class = "random-wide-avg"
 		blob = make([]byte, size)
 		rng.Read(blob)
+	}
+	if !big && leg != "cli" && i%40 == 9 {
+		// runs of one byte value: their window hash is a constant, and for the few avg values whose discriminator divides
+		// that constant plus one the run is a cut point at every position (cut every min+1 bytes instead of at max)
+		fill := []byte{0, 0, 0xff, byte(rng.Intn(256))}[rng.Intn(4)]
+		if avgs := oracle.AvgsCuttingConstRun(fill, 1<<20); len(avgs) > 0 {
+			avg := avgs[rng.Intn(len(avgs))]
+			sz = dsu.Sizes{Min: 48 + uint64(rng.Intn(int(min(avg, 2000)))), Avg: avg, Max: avg + uint64(rng.Intn(int(avg)+1))}
+			if sz.Min > sz.Avg {
+				sz.Min = sz.Avg
+			}
+			head := make([]byte, rng.Intn(int(sz.Min)*2+1))
+			rng.Read(head)
+			run := make([]byte, int(sz.Max)*(1+rng.Intn(2))+rng.Intn(1000))
+			for j := range run {
+				run[j] = fill
+			}
+			tail := make([]byte, rng.Intn(500))
+			rng.Read(tail)
+			blob = append(append(head, run...), tail...)
+			size = len(blob)
+			class = fmt.Sprintf("const-run-at-cutting-avg/%02x", fill)
+			if leg != "file" {
+				leg = "next"
+			}
+			n = 1 + rng.Intn(4)
+		}
 	}
 	if !big && leg != "cli" && i%10 == 4 {
 		// discriminator probe: a tiny input whose very first candidate window (the one ending at min+1) is built to be a
@@ -455,7 +482,7 @@ func run(c *harness.Ctx, i int) {
 		}
 		args = append(args, out, name)
 		// larger input so that several chunks exist at KiB sizes
-		blob = dsu.MakeBlob(rng, "mixed", int(csz.Max)*(2+rng.Intn(20))+rng.Intn(3000), csz)
+		blob = dsu.MakeBlob(rng, []string{"mixed", "zero-runs", "repetitive", "zero-runs"}[rng.Intn(4)], int(csz.Max)*(2+rng.Intn(20))+rng.Intn(3000), csz)
 		dsu.WriteFile(name, blob)
 		cmd := exec.Command(cli, args...)
 		cmd.Env = append(os.Environ(), "HOME="+dir)
